@@ -1,17 +1,83 @@
-(* C16 - WorkerPool conserves tasks and always shuts down. Statements only. *)
-From Coq Require Import List ZArith Bool.
-From Verif.C16_Pool Require Import Model Refute.
+(* C16 - WorkerPool conserves tasks and always shuts down. Statements only.
+   Model: Verif.C16_Pool.Model (interleaving system; `pinned` = code as pinned, `repaired` = code after the fix: commits). *)
+From Coq Require Import List ZArith Bool Permutation.
+From Verif.C16_Pool Require Import Model Inv Proofs Runs Refute.
 Import ListNotations.
 
+(* Every variant (pinned and repaired), every worker count >= 1, cancel on/off, every task program (nested submits), every
+   set of external threads with arbitrary Submit/Shutdown/Start/Wait scripts, EVERY schedule: each accepted task is run,
+   cancelled or still in flight (with multiplicities), and the pending counter is accepted - finished. *)
+Theorem C16_conservation : forall c, 1 <= nw c -> forall scripts sch, let s := run c sch (init c scripts) in
+  (forall i, cnt i (acc s) = cnt i (ran s) + cnt i (canc s) + inflight i s) /\
+  pending s = (Z.of_nat (length (acc s)) - Z.of_nat (length (ran s)) - Z.of_nat (length (canc s)))%Z.
+Proof. exact conservation. Qed.
+
+(* ... so once nothing is in flight, accepted = run + cancelled (exactly once each) and the counter is back at zero, *)
+Theorem C16_conservation_quiescent : forall c, 1 <= nw c -> forall scripts sch, let s := run c sch (init c scripts) in
+  (forall i, inflight i s = 0) -> Permutation (acc s) (ran s ++ canc s) /\ pending s = 0%Z.
+Proof. exact conservation_quiescent. Qed.
+
+(* ... tasks are cancelled only with WithCancelPendingTasksOnShutdown, *)
+Theorem C16_cancel_only_if_enabled : forall c scripts sch, cancel c = false -> canc (run c sch (init c scripts)) = [].
+Proof. exact cancel_only_if_enabled. Qed.
+
+(* ... and nothing runs or is cancelled while all workers are gone (after ShutdownComplete, until the next Start). *)
+Theorem C16_no_run_after_complete : forall c s x s', all_dead s = true -> step c s x = Some s' -> ran s' = ran s /\ canc s' = canc s.
+Proof. exact no_run_after_complete. Qed.
+
+(* A Start restarts only a pool whose workers are all gone (exclusion of concurrent Starts), every variant. *)
+Theorem C16_start_exclusive : forall c, 1 <= nw c -> forall scripts sch j e, let s := run c sch (init c scripts) in
+  nth_error (exts s) j = Some e -> epc_ e = EStGo -> all_dead s = true.
+Proof. exact start_exclusive. Qed.
+
+(* Shutdown termination, full statement (NOT proved in general; see notes/C16.md): in the repaired model no reachable stuck
+   state has a stopped pool with a live worker or dispatcher, or an operation other than a ShutdownComplete.Wait on a
+   running pool that has not returned. *)
+Definition C16_shutdown_terminates_full_statement : Prop :=
+  forall n cn p scripts sch, 1 <= n -> let c := repaired n cn p in let s := run c sch (init c scripts) in
+  stuckb c s = true ->
+  (forall i, inflight i s = 0) /\ (running s = false -> all_dead s = true /\ disp s = DDead) /\
+  (forall e, In e (exts s) -> (epc_ e = EIdle /\ ops e = []) \/ (running s = true /\ epc_ e = EIdle /\ exists r, ops e = OWaitShutdown :: r)).
+
+(* The pinned code violates it: explicit schedules ending in stuck states (replayed on the pinned code with the verif hooks). *)
 Theorem C16_refuted_submit_race :
   let s := run cA schA (init cA scriptsA) in
   stuckb cA s = true /\ running s = false /\ all_dead s = false /\ disp s = DWaitZ /\ pending s = 1%Z /\ queue s = [7].
 Proof. exact refuted_submit_race. Qed.
+
+Theorem C16_refuted_submit_race_lost_task :
+  let s := run cA schA2 (init cA scriptsA2) in
+  stuckb cA s = true /\ all_dead s = true /\ acc s = [7] /\ ran s = [] /\ canc s = [] /\ pending s = 1%Z.
+Proof. exact refuted_submit_race_lost_task. Qed.
 
 Theorem C16_refuted_lost_wakeup :
   let s := run cA schB (init cA scriptsB) in
   stuckb cA s = true /\ running s = false /\ all_dead s = false /\ disp s = DParked /\ exts s = [mkExt EIdle []; mkExt EIdle []].
 Proof. exact refuted_lost_wakeup. Qed.
 
+Theorem C16_refuted_start_holds_lock :
+  let s := run cC schC (init cC scriptsC) in
+  stuckb cC s = true /\ all_dead s = false /\ map epc_ (exts s) = [EStWait] /\ pending s = 1%Z.
+Proof. exact refuted_start_holds_lock. Qed.
+
+Theorem C16_refuted_stale_signal :
+  let s := run cD schD (init cD scriptsD) in running s = true /\ acc s = [5] /\ ran s = [] /\ canc s = [5].
+Proof. exact refuted_stale_signal. Qed.
+
+Theorem C16_refuted_naive_repair :
+  let s := run cN schN (init cN scriptsN) in
+  stuckb cN s = true /\ disp s = DIn /\ map epc_ (exts s) = [EIdle; ESub 7 SPush; EShAcq].
+Proof. exact refuted_naive_repair. Qed.
+
+(* non-vacuity: the same race schedules on the repaired model are not stuck, and a full run is quiescent *)
+Example C16_repaired_not_stuck : let c := repaired 1 false [] in
+  stuckb c (run c schA (init c scriptsA)) = false /\ stuckb c (run c schB (init c scriptsB)) = false.
+Proof. split; [exact repaired_submit_race | exact repaired_lost_wakeup]. Qed.
+
+Print Assumptions C16_conservation.
+Print Assumptions C16_conservation_quiescent.
+Print Assumptions C16_cancel_only_if_enabled.
+Print Assumptions C16_no_run_after_complete.
+Print Assumptions C16_start_exclusive.
 Print Assumptions C16_refuted_submit_race.
 Print Assumptions C16_refuted_lost_wakeup.
